@@ -119,3 +119,8 @@ Theorem C12_intersect_with_adjacents : forall l r mask,
     (ia_alo o, ia_aro o) = adjacent_spec l r mask (lowbit mask).
 Proof. exact intersect_with_adjacents_correct. Qed.
 Print Assumptions C12_intersect_with_adjacents.
+
+(* Assumptions of the remaining named statements of this file (the gate requires one per statement). *)
+Print Assumptions C12_sorted_gives_msorted.
+Print Assumptions C12_key_sum_over.
+Print Assumptions C12_reduce_length_mismatch.
